@@ -15,7 +15,7 @@ from .. import core, drive, multisite, progspace, resultfiles
 from ..core import Violation
 
 PROP = "C13"
-SPELLINGS = ["relative", "glob-dstar", "glob-star"]
+SPELLINGS = ["relative", "glob-dstar", "glob-cross", "glob-star"]
 
 
 def candidate_seeds():
@@ -31,6 +31,9 @@ def spell(spelling, path, line):
     name = path.rsplit("/", 1)[-1]
     if spelling == "relative":
         return f"{path}:{line}"
+    if spelling == "glob-cross":
+        # a '*' that has to span a directory separator (path patterns are fnmatch globs: '*' crosses '/')
+        return f"{path.split('/')[0]}/*.py:{line}" if "/" in path else f"{path}:{line}"
     if spelling == "glob-dstar":
         return f"**/{name}:{line}" if "/" in path else f"*{name}:{line}"
     return f"*{name}:{line}"
@@ -101,11 +104,17 @@ def _eval_seed(seed, n, mode, spelling):
     for i, sub in enumerate(subsets):
         if mode == "include" and not sub:
             continue
-        path = (f"pkg/sub/site{i}.py" if i % 2 else f"site{i}.py")
+        # every subset file has its own top-level directory (so that a 'dir/*.py' glob addresses exactly one file)
+        path = (f"d{i}/deep/site{i}.py" if i % 2 else f"site{i}.py")
         files[path] = data
         for c in sub:
             pats.append(spell(spelling, path, site_lines[c]))
         expect[path] = sorted(set(range(n)) - set(sub)) if mode == "exclude" else sorted(sub)
+        if "/" not in path and mode == "exclude" and spelling in ("relative", "glob-cross"):
+            # a same-named file in a sub-directory that no pattern names: a relative pattern for the root file must not reach it
+            twin = f"twin/{path}"
+            files[twin] = data
+            expect[twin] = list(range(n))
     flag = "--path-exclude" if mode == "exclude" else "--path-include"
     obs = run(files, [flag, ",".join(pats)] if pats else [], list(files))
     if obs.exit != 0:
@@ -124,7 +133,7 @@ def _eval_seed(seed, n, mode, spelling):
         loc = "subdir" if "/" in path else "root"
         if got != exp:
             kind = "excluded-line-rewritten" if mode == "exclude" and set(got) - set(exp) else ("line-not-included-rewritten" if mode == "include" and set(got) - set(exp) else "permitted-line-not-rewritten")
-            out.append((f"{tag}|{mode}|{kind}", f"[{spelling}, {loc}] {path}: patterns {[p for p in pats if p.startswith(path) or path.rsplit('/', 1)[-1] in p]} -> permitted sites {exp}, rewritten sites {got} (site lines {site_lines})"))
+            out.append((f"{tag}|{mode}|{kind}", f"[{spelling}, {loc}] {path}: patterns {[p for p in pats if p.startswith(path.split('/')[0]) or path.rsplit('/', 1)[-1] in p]} -> permitted sites {exp}, rewritten sites {got} (site lines {site_lines})"))
             continue
         nontrivial += 1
         named = sorted({l for l in changes_by_path.get(path, []) if l in site_lines})
@@ -139,7 +148,7 @@ def cases(tier):
     out = []
     for cm in sorted(candidate_seeds()):
         for mode in ("exclude", "include"):
-            for sp in SPELLINGS if tier == "thorough" else SPELLINGS[:2]:
+            for sp in SPELLINGS if tier == "thorough" else SPELLINGS[:3]:
                 out.append((cm, n, mode, sp))
     return out
 
@@ -187,7 +196,7 @@ def explore(tier, seed):
         "subset_files_judged": files,
         "subset_files_as_expected_and_line_numbers_checked": nontrivial,
         "sites_per_file": 2 if tier == "quick" else 3,
-        "spellings": SPELLINGS if tier == "thorough" else SPELLINGS[:2],
+        "spellings": SPELLINGS if tier == "thorough" else SPELLINGS[:3],
         "replay_divergence": divergence,
         "rule": "state = (codemod, subset of site lines, include|exclude, spelling, location); every subset has its own file, one real run per (codemod, mode, spelling); site lines measured by a pattern-free reference run",
     }
